@@ -35,3 +35,112 @@ Proof.
   intros He Hr Hp Hs. unfold interp_sph, interp_cart, p_cart.
   apply (cart_solves_chain_rule_lemma eps_jac He _ _ _ r th ph Hr Hp Hs).
 Qed.
+
+(* ---- statements of C09_props.v that need a line of glue *)
+Lemma reweighted_sum_is_integral_final :
+  forall (D : Type) (eps_small : R) (g : list (shell R D)) (fvals : list (list R)),
+  0 < eps_small -> (forall s, In s g -> wf_shell s) ->
+  sum ROps (map2 (fun s v => s_r s * s_r s * s_w s * v) g (int_ang ROps eps_small g fvals)) = grid_integrate ROps g fvals.
+Proof. intros D eps g fvals He. exact (reweighted_sum_lemma eps He g fvals). Qed.
+
+Lemma components_recovered_final :
+  forall (D : Type) (eps_small : R) (Y : nat -> D -> R) (g : list (shell R D)) (K : nat) (cs : list (nat -> R)),
+  0 < eps_small -> wf_grid Y g -> band_ok g K -> length cs = length g ->
+  rad_comps ROps eps_small Y g (band_grid Y g K cs)
+  = map (fun k => map (fun c => if (k <? K)%nat then c k else 0) cs) (seq 0 (nbasis g)).
+Proof. intros D eps Y g K cs He. exact (components_recovered_lemma eps He Y g K cs). Qed.
+
+Lemma interpolant_at_grid_points_final :
+  forall (D : Type) (eps_small : R) (Y : nat -> D -> R) (spl : list R -> list R -> R -> nat -> R) (y00 : R)
+         (g : list (shell R D)) (K : nat) (cs : list (nat -> R)) (i j : nat) (s0 : shell R D) (c0 : nat -> R) (d0 : D),
+  0 < eps_small -> wf_grid Y g -> band_ok g K -> length cs = length g -> spl_knots spl (radii g) -> (i < length g)%nat ->
+  let s := nth i g s0 in let c := nth i cs c0 in
+  (j < length (s_pdirs s))%nat -> (j < length (basis_dirs ROps s))%nat ->
+  (is0 ROps (s_r s) = false \/ ((forall d, Y 0%nat d = y00) /\ forall k, (1 <= k < K)%nat -> c k = 0)) ->
+  interp_value ROps eps_small Y spl g (band_grid Y g K cs) (s_r s) (nth j (s_pdirs s) d0) 0
+  = nth j (nth i (band_grid Y g K cs) []) 0.
+Proof. intros D eps Y spl y00 g K cs i j s0 c0 d0 He. exact (interp_at_grid_points_lemma eps He Y spl y00 g K cs i j s0 c0 d0). Qed.
+
+Lemma interpolant_def_final :
+  forall (D : Type) (eps_small : R) (Y : nat -> D -> R) (spl : list R -> list R -> R -> nat -> R)
+         (g : list (shell R D)) (K : nat) (cs : list (nat -> R)) (r : R) (d : D) (nu : nat),
+  0 < eps_small -> wf_grid Y g -> band_ok g K -> length cs = length g -> g <> [] -> spl_linear spl (radii g) ->
+  interp_value ROps eps_small Y spl g (band_grid Y g K cs) r d nu
+  = sumn K (fun k => spl (radii g) (map (fun c => c k) cs) r nu * Y k d).
+Proof. intros D eps Y spl g K cs r d nu He. exact (interpolant_def_lemma eps He Y spl g K cs r d nu). Qed.
+
+Lemma closure_modes_final :
+  forall (D : Type) (eps_small eps_jac : R) (Y dYt dYp : nat -> D -> R) (sint cost sinp cosp phi : D -> R)
+         (spl : list R -> list R -> R -> nat -> R) (g : list (shell R D)) fvals (pts : list (R * D)) nu sph,
+  let I := interpolate ROps eps_small eps_jac Y dYt dYp sint cost sinp cosp phi spl g fvals pts in
+  I 0%nat sph false = Vals (map (fun p => interp_value ROps eps_small Y spl g fvals (fst p) (snd p) 0) pts) /\
+  I nu sph true = Vals (map (fun p => interp_value ROps eps_small Y spl g fvals (fst p) (snd p) nu) pts) /\
+  I 1%nat true false
+    = Flat (map (fun p => fst (fst (interp_sph ROps eps_small Y dYt dYp spl g fvals (fst p) (snd p)))) pts
+            ++ map (fun p => snd (fst (interp_sph ROps eps_small Y dYt dYp spl g fvals (fst p) (snd p)))) pts
+            ++ map (fun p => snd (interp_sph ROps eps_small Y dYt dYp spl g fvals (fst p) (snd p))) pts) /\
+  I 1%nat false false
+    = Rows (map (fun p => interp_cart ROps eps_small eps_jac Y dYt dYp sint cost sinp cosp phi spl g fvals (fst p) (snd p)) pts) /\
+  I (S (S nu)) sph false = Err.
+Proof.
+  intros D e1 e2 Y dYt dYp st ct sp cp ph spl g fvals pts nu sph I. unfold I.
+  exact (conj (interpolate_values0 e1 Y spl e2 dYt dYp st ct sp cp ph g fvals pts sph false)
+        (conj (interpolate_values e1 Y spl e2 dYt dYp st ct sp cp ph g fvals pts nu sph (or_intror Logic.I))
+        (conj (interpolate_spherical e1 Y spl e2 dYt dYp st ct sp cp ph g fvals pts)
+        (conj (interpolate_cartesian e1 Y spl e2 dYt dYp st ct sp cp ph g fvals pts)
+              (interpolate_higher_rejected e1 Y spl e2 dYt dYp st ct sp cp ph g fvals pts nu sph))))).
+Qed.
+
+Lemma derivatives_consistent_spherical_final :
+  forall (eps_small : R) (Yf dYtf dYpf : nat -> R -> R -> R) (spl : list R -> list R -> R -> nat -> R)
+         (g : list (shell R dir)) (fvals : list (list R)) (r th ph : R),
+  length fvals = length g -> spl_deriv spl (radii g) ->
+  (forall k, (k < nbasis g)%nat -> is_derive (fun t => Yf k t ph) th (dYtf k th ph)) ->
+  (forall k, (k < nbasis g)%nat -> is_derive (fun t => Yf k th t) ph (dYpf k th ph)) ->
+  let '(dr, dt, dp) := interp_sph ROps eps_small (Yd Yf) (dYtd dYtf) (dYpd dYpf) spl g fvals r (th, ph) in
+  is_derive (fun t => F eps_small Yf spl g fvals 0 t th ph) r dr /\
+  is_derive (fun t => F eps_small Yf spl g fvals 0 r t ph) th dt /\
+  is_derive (fun t => F eps_small Yf spl g fvals 0 r th t) ph dp.
+Proof. intros e Yf dYtf dYpf spl g fvals r th ph. exact (spherical_derivative_lemma e Yf dYtf dYpf spl g fvals r th ph). Qed.
+
+Lemma jacobian_inverse_final :
+  forall (eps_jac gx gy gz r th ph : R), 0 < eps_jac -> eps_jac <= Rabs r -> eps_jac <= Rabs ph -> sin ph <> 0 ->
+  sph_to_cart ROps eps_jac sintd costd sinpd cospd phid
+      (gx * (sin ph * cos th) + gy * (sin ph * sin th) + gz * cos ph)
+      (gx * (- r * sin ph * sin th) + gy * (r * sin ph * cos th) + gz * 0)
+      (gx * (r * cos ph * cos th) + gy * (r * cos ph * sin th) + gz * (- r * sin ph)) r (th, ph) = (gx, gy, gz).
+Proof. intros e gx gy gz r th ph He. exact (jacobian_inverse_lemma e He gx gy gz r th ph). Qed.
+
+Lemma derivatives_consistent_cartesian_refuted_final :
+  forall eps_jac : R, 0 < eps_jac ->
+  (exists gx gy gz r, 0 < r /\
+     sph_to_cart ROps eps_jac sintd costd sinpd cospd phid
+       (gx * (sin 0 * cos 0) + gy * (sin 0 * sin 0) + gz * cos 0)
+       (gx * (- r * sin 0 * sin 0) + gy * (r * sin 0 * cos 0) + gz * 0)
+       (gx * (r * cos 0 * cos 0) + gy * (r * cos 0 * sin 0) + gz * (- r * sin 0)) r (0, 0) <> (gx, gy, gz)) /\
+  (exists gx gy gz,
+     sph_to_cart ROps eps_jac sintd costd sinpd cospd phid
+       (gx * (sin 0 * cos 0) + gy * (sin 0 * sin 0) + gz * cos 0) 0 0 0 (0, 0) <> (gx, gy, gz)).
+Proof. intros e He. exact (conj (cartesian_axis_refuted_lemma e He) (cartesian_centre_refuted_lemma e He)). Qed.
+
+Lemma average_integrates_back_final :
+  forall (D : Type) (eps_small fourpi : R) (spl : list R -> list R -> R -> nat -> R) (g : list (shell R D)) (fvals : list (list R)),
+  0 < eps_small -> fourpi <> 0 -> (forall s, In s g -> wf_shell s) -> length fvals = length g -> spl_knots spl (radii g) ->
+  radial_integral ROps g (fun r => fourpi * (r * r) * spherical_average ROps eps_small fourpi spl g fvals r 0)
+  = grid_integrate ROps g fvals.
+Proof. intros D e fp spl g fvals He. exact (average_integrates_back_lemma e He spl fp g fvals). Qed.
+
+Lemma mol_is_sum_of_atoms_final :
+  forall (D : Type) (eps_small eps_jac : R) (Y dYt dYp : nat -> D -> R) (sint cost sinp cosp phi : D -> R)
+         (spl : list R -> list R -> R -> nat -> R) (atoms : list (atom (T := R) (D := D))) (ps : list (R * D)) sph ro,
+  atoms <> [] -> length ps = length atoms ->
+  mol_interpolate ROps eps_small eps_jac Y dYt dYp sint cost sinp cosp phi spl atoms (map (fun p => [p]) ps) 0 sph ro
+  = Vals [sum ROps (map2 (fun a p => interp_value ROps eps_small Y spl (a_grid a) (weighted a) (fst p) (snd p) 0) atoms ps)] /\
+  let gs := map2 (fun a p => interp_cart ROps eps_small eps_jac Y dYt dYp sint cost sinp cosp phi spl (a_grid a) (weighted a) (fst p) (snd p)) atoms ps in
+  mol_interpolate ROps eps_small eps_jac Y dYt dYp sint cost sinp cosp phi spl atoms (map (fun p => [p]) ps) 1 false false
+  = Rows [(sum ROps (map (fun v => fst (fst v)) gs), sum ROps (map (fun v => snd (fst v)) gs), sum ROps (map snd gs))].
+Proof.
+  intros D e1 e2 Y dYt dYp st ct sp cp ph spl atoms ps sph ro Ha Hl.
+  exact (conj (mol_value_lemma e1 Y spl e2 dYt dYp st ct sp cp ph atoms ps sph ro Ha Hl)
+              (mol_gradient_lemma e1 Y spl e2 dYt dYp st ct sp cp ph atoms ps Ha Hl)).
+Qed.
